@@ -43,6 +43,8 @@ B = [
    "\tif (f->shared_fs->n_iters > 0) {\n\t\tf->shared_fs->reload_needed = true;\n\t\treturn;\n\t}\n",
    "\tif (f->shared_fs->n_iters >= 0) {\n\t\t/* the reload is carried out by the next source operation */\n\t\tf->shared_fs->reload_needed = true;\n\t\treturn;\n\t}\n")]),
  ("b24-process-global-one-time-allocation", ["C18"], [("mtbl/reader.c", "\tr->scratch = my_malloc(4096);\n", "")] if False else [("mtbl/reader.c", "\tmetadata_offset = r->len_data - MTBL_METADATA_SIZE;", "\t{\n\t\tstatic uint8_t *once_table;\t/* built on first use, lives as long as the process */\n\t\tif (once_table == NULL) {\n\t\t\tonce_table = my_malloc(65536);\n\t\t\tmemset(once_table, 0, 65536);\n\t\t}\n\t}\n\tmetadata_offset = r->len_data - MTBL_METADATA_SIZE;")]),
+ ("b25-sorter-entry-64bit-lengths", ["C06"], [("mtbl/sorter.c", "struct entry {\n\tuint32_t\t\t\tlen_key;\n\tuint32_t\t\t\tlen_val;", "struct entry {\n\tuint64_t\t\t\tlen_key;\n\tuint64_t\t\t\tlen_val;")]),
+ ("b26-sorter-limit-counts-payload-only", ["C06"], [("mtbl/sorter.c", "\tif (s->entry_bytes + entry_vec_bytes(s->vec) >= s->opt.max_memory)", "\t/* the limit is on key and value bytes, as documented */\n\tif (s->entry_bytes - entry_vec_size(s->vec) * sizeof(struct entry) >= s->opt.max_memory)")]),
  ("b11-merger-extra-heapify", ["C04", "C05"], [("mtbl/merger.c", "\t\t\tif (res == mtbl_res_success)\n\t\t\t\theap_replace(it->h, e);", "\t\t\tif (res == mtbl_res_success) {\n\t\t\t\theap_replace(it->h, e);\n\t\t\t\theap_heapify(it->h);\n\t\t\t}")]),
 ]
 
